@@ -867,9 +867,6 @@ class _Linalg(_types.ModuleType):
         if getattr(a, "_pyvc_symbolic", False):
             return STATE.alg.norm(a, ord)
         if _symbolic(a):
-            h = getattr(STATE.alg, "norm", None)
-            if h is not None:
-                return h(a, ord)
             a = _to_obj(a)
             if ord is None or ord == 2:
                 tot = STATE.alg.const(Fraction(0))
